@@ -17,7 +17,7 @@ func init() {
 			"(R10.2) the Cancelling reason is entered only from the direct-rollback handler, runs doFinalising with reason Rollback, and reports Completed / Succeeded=False only after doFinalising reported done; rollback task sequences start with RouteTrafficToStable (R4.1 K3 re-evaluated here); " +
 			"(R10.3) handleContinuousRelease reaches doProgressingReset only when the release is not blue-green, the blue-green edge returns a BadRequest error that reconcileRolloutProgressing swallows without a state transition; " +
 			"(R10.4) status is cleared and the rollout re-enters Initializing only after doProgressingReset reported done; doProgressingReset's stage chain (gateway before BatchRelease before canary Service) is R4.3b re-evaluated here.",
-		NotDecided: "that IsInRollback / revision comparison detect every rollback (hash semantics); that traffic has actually drained before pods go (provider behaviour).",
+		NotDecided:  "that IsInRollback / revision comparison detect every rollback (hash semantics); that traffic has actually drained before pods go (provider behaviour).",
 		Assumptions: []string{"facts are syntactic branch conditions over SSA terms"},
 	})
 }
